@@ -433,3 +433,337 @@ Proof.
   unfold holds_after. set (r := rebuild _ _ _). vm_compute in r. subst r. cbv beta iota.
   repeat split; cbn; lia.
 Qed.
+
+(* ================================================================ 3. every readable entry has a sound chain *)
+
+(* y is x, except that the finalized flag (and more/freed, which no chain property mentions) may have been set *)
+Definition core_le (x y : sl) : Prop :=
+  s_mapped y = s_mapped x /\ s_size y = s_size x /\ s_next y = s_next x /\ (s_final x = true -> s_final y = true).
+
+Lemma core_le_refl : forall x, core_le x x.
+Proof. intros; unfold core_le; auto. Qed.
+
+Lemma core_le_trans : forall x y z, core_le x y -> core_le y z -> core_le x z.
+Proof. unfold core_le; intros x y z (A1&A2&A3&A4) (B1&B2&B3&B4); repeat split; try congruence; auto. Qed.
+
+Definition member_ok (N : Z) (s : st) (x : Z) : Prop :=
+  0 <= x < N /\ s_mapped (sls s x) = true /\ s_final (sls s x) = true /\ 0 < s_size (sls s x).
+
+Definition good_chain (N : Z) (s : st) (f : Z) (l : list Z) : Prop :=
+  chain_of s (a_start (ents s f)) l /\ NoDup l /\ (forall x, In x l -> member_ok N s x) /\
+  sumsz s l = e_size (ents s f).
+
+Definition loaded (s : st) (f : Z) : Prop := e_state (ents s f) = LeLoaded.
+
+Definition ent_ok (e : entry) : Prop :=
+  match e_state e with
+  | LeEmpty => e = entry0
+  | LeLoading => a_writing e = true
+  | LeLoaded => a_writing e = false
+  | LeCorrupted => a_writing e = false /\ a_empty e = true
+  | LeIgnored => False
+  end.
+
+Record Inv (N : Z) (s : st) : Prop := mkInv {
+  iv_ent : forall f, ent_ok (ents s f);
+  iv_chain : forall f, loaded s f -> exists l, good_chain N s f l;
+  iv_disj : forall f g l1 l2 x, f <> g -> loaded s f -> loaded s g ->
+            good_chain N s f l1 -> good_chain N s g l2 -> In x l1 -> In x l2 -> False }.
+
+Lemma chain_of_det : forall s l1 l2 i, chain_of s i l1 -> chain_of s i l2 -> l1 = l2.
+Proof.
+  induction l1 as [|x r IH]; intros l2 i H1 H2; destruct l2 as [|y r2]; cbn in *; try reflexivity; try lia.
+  destruct H1 as (E1 & P1 & C1). destruct H2 as (E2 & P2 & C2). subst x y. f_equal. eapply IH; eauto.
+Qed.
+
+Lemma chain_of_frame : forall s s' l i,
+  (forall x, In x l -> s_next (sls s' x) = s_next (sls s x)) -> chain_of s i l -> chain_of s' i l.
+Proof.
+  induction l as [|x r IH]; intros i Hn H; cbn in *; [assumption|].
+  destruct H as (E & P & C). repeat split; try assumption.
+  rewrite (Hn x) by auto. apply IH; auto.
+Qed.
+
+Lemma sumsz_frame : forall s s' l,
+  (forall x, In x l -> s_size (sls s' x) = s_size (sls s x)) -> sumsz s' l = sumsz s l.
+Proof.
+  induction l as [|x r IH]; intros Hn; cbn; [reflexivity|].
+  rewrite (Hn x) by (cbn; auto). rewrite IH; [reflexivity|]. intros; apply Hn; cbn; auto.
+Qed.
+
+Lemma good_chain_frame : forall N s s' f l,
+  ents s' f = ents s f -> (forall x, In x l -> core_le (sls s x) (sls s' x)) ->
+  good_chain N s f l -> good_chain N s' f l.
+Proof.
+  intros N s s' f l He Hc (C & ND & M & S). unfold good_chain. rewrite He.
+  split; [|split; [assumption|split]].
+  - eapply chain_of_frame; [|eassumption]. intros x Hx. apply Hc in Hx. destruct Hx as (_&_&Hx&_). exact Hx.
+  - intros x Hx. specialize (M x Hx). specialize (Hc x Hx). destruct M as (R&M1&M2&M3).
+    destruct Hc as (C1&C2&C3&C4). unfold member_ok. rewrite C1, C2. auto.
+  - rewrite <- S. apply sumsz_frame. intros x Hx. apply Hc in Hx. destruct Hx as (_&Hx&_). exact Hx.
+Qed.
+
+(* the master preservation lemma: entry f and the slots in P may change arbitrarily *)
+Lemma Inv_step : forall N s s' f (P : Z -> Prop),
+  Inv N s ->
+  (forall g, g <> f -> ents s' g = ents s g) ->
+  (forall x, P x \/ core_le (sls s x) (sls s' x)) ->
+  (forall g l x, g <> f -> loaded s g -> good_chain N s g l -> In x l -> ~ P x) ->
+  ent_ok (ents s' f) ->
+  (loaded s' f -> exists l, good_chain N s' f l /\
+      forall g l2 x, g <> f -> loaded s g -> good_chain N s g l2 -> In x l -> In x l2 -> False) ->
+  Inv N s'.
+Proof.
+  intros N s s' f P I He Hs HP Hf Hl.
+  assert (T : forall g l, g <> f -> loaded s g -> good_chain N s g l -> good_chain N s' g l).
+  { intros g l Hg Lg G. eapply good_chain_frame; [apply He; assumption| |exact G].
+    intros x Hx. destruct (Hs x) as [Px|C]; [|exact C]. exfalso. eapply HP; eauto. }
+  assert (B : forall g l, g <> f -> loaded s' g -> good_chain N s' g l -> loaded s g /\ good_chain N s g l).
+  { intros g l Hg Lg G. assert (Lg' : loaded s g) by (unfold loaded in *; rewrite <- (He g Hg); exact Lg).
+    split; [exact Lg'|]. destruct (iv_chain N s I g Lg') as [l0 G0].
+    pose proof (T g l0 Hg Lg' G0) as G0'.
+    assert (l = l0). { destruct G as (C&_). destruct G0' as (C0&_). eapply chain_of_det; eauto. }
+    subst l0. exact G0. }
+  constructor.
+  - intros g. destruct (Z.eq_dec g f) as [->|Hg]; [exact Hf|]. rewrite He by assumption. apply (iv_ent N s I).
+  - intros g Lg. destruct (Z.eq_dec g f) as [->|Hg].
+    + destruct (Hl Lg) as [l [G _]]. eauto.
+    + assert (Lg' : loaded s g) by (unfold loaded in *; rewrite <- (He g Hg); exact Lg).
+      destruct (iv_chain N s I g Lg') as [l0 G0]. exists l0. apply T; assumption.
+  - intros g1 g2 l1 l2 x Hne L1 L2 G1 G2 X1 X2.
+    destruct (Z.eq_dec g1 f) as [E1|N1]; destruct (Z.eq_dec g2 f) as [E2|N2].
+    + congruence.
+    + subst g1. destruct (Hl L1) as [l [G D]].
+      assert (l1 = l). { destruct G1 as (C&_). destruct G as (C0&_). eapply chain_of_det; eauto. } subst l1.
+      destruct (B g2 l2 N2 L2 G2) as [L2' G2']. eapply D; eauto.
+    + subst g2. destruct (Hl L2) as [l [G D]].
+      assert (l2 = l). { destruct G2 as (C&_). destruct G as (C0&_). eapply chain_of_det; eauto. } subst l2.
+      destruct (B g1 l1 N1 L1 G1) as [L1' G1']. eapply D; eauto.
+    + destruct (B g1 l1 N1 L1 G1) as [L1' G1']. destruct (B g2 l2 N2 L2 G2) as [L2' G2'].
+      eapply (iv_disj N s I g1 g2); eauto.
+Qed.
+
+(* entry f changes but is not (and does not become) loaded; no slice, mapped or finalized flag is taken back *)
+Lemma Inv_keep : forall N s s' f,
+  Inv N s ->
+  (forall g, g <> f -> ents s' g = ents s g) ->
+  (forall x, core_le (sls s x) (sls s' x)) ->
+  ent_ok (ents s' f) -> e_state (ents s' f) <> LeLoaded ->
+  Inv N s'.
+Proof.
+  intros N s s' f I He Hs Hf Hn.
+  apply (Inv_step N s s' f (fun _ => False)); auto.
+  intros L. exfalso. apply Hn. exact L.
+Qed.
+
+Ltac st_simp := cbn [ents sls free acount c_scan c_obj c_invalid c_clash c_dup c_badflags c_valid
+                     set_ent set_sl set_free set_acount inc_scan inc_obj inc_invalid inc_clash inc_dup
+                     inc_badflags inc_valid] in *.
+
+Lemma upd_same : forall A (g : Z -> A) k v, upd g k v k = v.
+Proof. intros. unfold upd. rewrite Z.eqb_refl. reflexivity. Qed.
+
+Lemma upd_other : forall A (g : Z -> A) k v x, x <> k -> upd g k v x = g x.
+Proof. intros. unfold upd. destruct (x =? k) eqn:E; [lia|reflexivity]. Qed.
+
+(* --- footprints of the slot-level helpers: entries untouched, slices/mapped/finalized untouched --- *)
+Definition quiet (s s' : st) : Prop :=
+  ents s' = ents s /\ forall x, core_le (sls s x) (sls s' x).
+
+Lemma quiet_refl : forall s, quiet s s.
+Proof. intros; split; [reflexivity|intros; apply core_le_refl]. Qed.
+
+Lemma quiet_trans : forall a b c, quiet a b -> quiet b c -> quiet a c.
+Proof. intros a b c [E1 C1] [E2 C2]. split; [congruence|]. intros x. eapply core_le_trans; eauto. Qed.
+
+Lemma push_free_quiet : forall i s s', push_free i s = Ok s' -> quiet s s'.
+Proof. intros i s s' H. apply push_free_sls in H. destruct H as [A B]. split; [exact B|]. intros x. rewrite A. apply core_le_refl. Qed.
+
+Lemma free_slot_quiet : forall N pos inv i s s', free_slot N pos inv i s = Ok s' -> quiet s s'.
+Proof.
+  intros N pos inv i s s' H. apply free_slot_sls in H. destruct H as (_&_&A&B). split; [exact B|].
+  intros x. rewrite A. unfold upd. destruct (x =? i) eqn:E; [|apply core_le_refl].
+  assert (x = i) by lia. subst x. unfold core_le; cbn; auto.
+Qed.
+
+Lemma free_unused_slot_quiet : forall N pos inv i s s', free_unused_slot N pos inv i s = Ok s' -> quiet s s'.
+Proof.
+  intros N pos inv i s s'. unfold free_unused_slot. destruct (negb (ls_ok N pos i)); [discriminate|].
+  destruct (s_mapped (sls s i)); [discriminate|]. apply free_slot_quiet.
+Qed.
+
+Lemma bind_ok : forall r k s', bind r k = Ok s' -> exists s1, r = Ok s1 /\ k s1 = Ok s'.
+Proof. intros [s| s | |] k s' H; cbn in H; try discriminate; eauto. Qed.
+
+Lemma free_more_chain_quiet : forall N pos fuel i s s', free_more_chain N pos fuel i s = Ok s' -> quiet s s'.
+Proof.
+  induction fuel; intros i s s' H; cbn [free_more_chain] in H.
+  - destruct (i <? 0); [|discriminate]. inversion H; subst. apply quiet_refl.
+  - destruct (i <? 0); [inversion H; subst; apply quiet_refl|].
+    destruct (negb (ls_ok N pos i)); [discriminate|].
+    apply bind_ok in H. destruct H as [s1 [H1 H2]].
+    eapply quiet_trans; [eapply free_slot_quiet; eauto|eapply IHfuel; eauto].
+Qed.
+
+Lemma ent_ok_corrupted : forall e, ent_ok (e_set_writing (rewind (e_set_state e LeCorrupted)) false).
+Proof. intros. unfold ent_ok. cbn. auto. Qed.
+
+(* freeBadEntry: entry f ends up Corrupted, unlocked, keyless; nothing else that matters changes *)
+Lemma free_bad_entry_inv : forall N pos f s s',
+  Inv N s -> e_state (ents s f) <> LeLoaded -> free_bad_entry N pos f s = Ok s' -> Inv N s'.
+Proof.
+  intros N pos f s s' I NL H. unfold free_bad_entry in H. st_simp. rewrite upd_same in H.
+  cbn [a_writing e_set_state a_start e_size] in H.
+  destruct (negb (a_writing (ents s f))); [discriminate|].
+  match type of H with context [if negb ?c then Abort else _] => destruct (negb c) end; [discriminate|].
+  apply bind_ok in H. destruct H as [s1 [H1 H2]].
+  apply free_more_chain_quiet in H1. destruct H1 as [E1 C1]. st_simp.
+  unfold forget_writing in H2. destruct (negb (a_writing (ents s1 f))); [discriminate|].
+  inversion H2; subst s'; clear H2.
+  apply (Inv_keep N s _ f I); st_simp.
+  - intros g Hg. rewrite upd_other by assumption. rewrite E1. rewrite upd_other by assumption. reflexivity.
+  - exact C1.
+  - rewrite upd_same. rewrite E1. rewrite upd_same. apply ent_ok_corrupted.
+  - rewrite upd_same. rewrite E1. rewrite upd_same. cbn. discriminate.
+Qed.
+
+Lemma Inv_quiet : forall N s s', Inv N s -> quiet s s' -> Inv N s'.
+Proof.
+  intros N s s' I [E C].
+  apply (Inv_step N s s' 0 (fun _ => False)); auto.
+  - intros; rewrite E; reflexivity.
+  - rewrite E. apply (iv_ent N s I).
+  - intros L. assert (L0 : loaded s 0) by (unfold loaded in *; rewrite <- E; exact L).
+    destruct (iv_chain N s I 0 L0) as [l G]. exists l. split.
+    + eapply good_chain_frame; [rewrite E; reflexivity| |exact G]. intros; apply C.
+    + intros g l2 x Hg Lg G2 X1 X2. eapply (iv_disj N s I 0 g); eauto.
+Qed.
+
+(* the slots visited from i through the slice links up to (not including) j *)
+Fixpoint path (s : st) (i : Z) (l : list Z) (j : Z) : Prop :=
+  match l with
+  | [] => i = j
+  | x :: r => i = x /\ 0 <= x /\ path s (s_next (sls s x)) r j
+  end.
+
+Lemma path_chain : forall s l i j, path s i l j -> j < 0 -> chain_of s i l.
+Proof. induction l as [|x r IH]; intros i j H Hj; cbn in *; [lia|]. destruct H as (A&B&C). eauto. Qed.
+
+Lemma path_frame : forall s s' l i j,
+  (forall x, In x l -> s_next (sls s' x) = s_next (sls s x)) -> path s i l j -> path s' i l j.
+Proof.
+  induction l as [|x r IH]; intros i j Hn H; cbn in *; [assumption|].
+  destruct H as (E & P & C). repeat split; try assumption.
+  rewrite (Hn x) by auto. apply IH; auto.
+Qed.
+
+Definition walk_post (N : Z) (s : st) (i msz : Z) (s' : st) (j m : Z) : Prop :=
+  exists l, path s i l j /\ NoDup l /\
+    (forall x, In x l -> 0 <= x < N /\ s_final (sls s x) = false /\ s_mapped (sls s x) = true /\ 0 < s_size (sls s x)) /\
+    m = msz + sumsz s l /\ ents s' = ents s /\
+    (forall x, In x l -> sls s' x = s_set_final (sls s x) true) /\
+    (forall x, ~ In x l -> sls s' x = sls s x).
+
+Lemma fin_walk_spec : forall N pos f lesz fuel i msz s,
+  match fin_walk N pos f lesz fuel i msz s with
+  | WOk s' j m => walk_post N s i msz s' j m
+  | WThrown s' => quiet s s'
+  | _ => True
+  end.
+Proof.
+  induction fuel; intros i msz s; cbn [fin_walk].
+  - destruct ((0 <=? i) && (msz <? lesz)); [exact I|].
+    exists []. cbn. repeat split; auto; try lia. constructor.
+  - destruct ((0 <=? i) && (msz <? lesz)) eqn:G.
+    2:{ exists []. cbn. repeat split; auto; try lia. constructor. }
+    destruct (ls_ok N pos i) eqn:L; cbn [negb]; [|apply quiet_refl].
+    destruct (s_final (sls s i)) eqn:F; [apply quiet_refl|].
+    destruct (s_mapped (sls s i)) eqn:M; cbn [negb]; [|apply quiet_refl].
+    destruct (s_freed (sls s i)) eqn:Fr; [apply quiet_refl|].
+    set (s1 := set_sl s i (s_set_final (sls s i) true)).
+    assert (Q1 : quiet s s1).
+    { split; [reflexivity|]. intros x. subst s1. st_simp. unfold upd. destruct (x =? i) eqn:E; [|apply core_le_refl].
+      assert (x = i) by lia. subst x. unfold core_le; cbn; auto. }
+    destruct (negb (a_writing (ents s1 f))); [exact I|].
+    destruct (0 <? s_size (sls s i)) eqn:Sz; cbn [negb]; [|exact Q1].
+    specialize (IHfuel (s_next (sls s i)) (msz + s_size (sls s i)) s1).
+    destruct (fin_walk N pos f lesz fuel (s_next (sls s i)) (msz + s_size (sls s i)) s1) as [s' j m|s'| |]; auto.
+    + destruct IHfuel as (l & P & ND & Mem & Sum & En & In1 & Out1).
+      assert (NI : ~ In i l).
+      { intros Hi. destruct (Mem i Hi) as (_&Fi&_). subst s1. st_simp. rewrite upd_same in Fi. cbn in Fi. discriminate. }
+      assert (Same : forall x, In x l -> sls s1 x = sls s x).
+      { intros x Hx. subst s1. st_simp. apply upd_other. intros ->. contradiction. }
+      exists (i :: l). unfold ls_ok in L.
+      split. { cbn [path]. split; [reflexivity|]. split; [lia|].
+               eapply path_frame; [|exact P]. intros x Hx. rewrite Same by assumption. reflexivity. }
+      split. { constructor; assumption. }
+      split. { intros x [<-|Hx]; [repeat split; try assumption; lia|].
+               rewrite <- (Same x Hx). apply Mem; assumption. }
+      split. { cbn [sumsz]. rewrite Sum. rewrite (sumsz_frame s s1 l); [lia|].
+               intros x Hx. rewrite Same by assumption. reflexivity. }
+      split. { rewrite En. reflexivity. }
+      split. { intros x [<-|Hx].
+               - rewrite Out1 by assumption. subst s1. st_simp. apply upd_same.
+               - rewrite In1 by assumption. rewrite Same by assumption. reflexivity. }
+      intros x Hx. rewrite Out1 by (intros Hc; apply Hx; right; exact Hc).
+      subst s1. st_simp. apply upd_other. intros ->. apply Hx. left; reflexivity.
+    + eapply quiet_trans; eauto.
+Qed.
+
+Lemma walk_post_quiet : forall N s i msz s' j m, walk_post N s i msz s' j m -> quiet s s'.
+Proof.
+  intros N s i msz s' j m (l & P & ND & Mem & Sum & En & In1 & Out1). split; [exact En|].
+  intros x. destruct (in_dec Z.eq_dec x l) as [Hx|Hx].
+  - rewrite In1 by assumption. unfold core_le; cbn; auto.
+  - rewrite Out1 by assumption. apply core_le_refl.
+Qed.
+
+(* finalizeOrThrow: success makes f a loaded entry with a sound chain that no other loaded entry uses;
+   an exception leaves everything that matters as it was *)
+Lemma finalize_or_throw_inv : forall N pos f s,
+  Inv N s ->
+  match finalize_or_throw N pos f s with
+  | Ok s' => Inv N s'
+  | Thrown s' => quiet s s'
+  | _ => True
+  end.
+Proof.
+  intros N pos f s I. unfold finalize_or_throw.
+  destruct (a_writing (ents s f)) eqn:W; cbn [negb]; [|exact Logic.I].
+  destruct (negb (0 <? e_size (ents s f))); [apply quiet_refl|].
+  pose proof (fin_walk_spec N pos f (e_size (ents s f)) (fuel_of N) (a_start (ents s f)) 0 s) as WS.
+  destruct (fin_walk N pos f (e_size (ents s f)) (fuel_of N) (a_start (ents s f)) 0 s) as [s1 j m|s1| |]; auto.
+  pose proof (walk_post_quiet _ _ _ _ _ _ _ WS) as Q.
+  destruct (j <? 0) eqn:J; cbn [negb]; [|exact Q].
+  destruct (m =? e_size (ents s f)) eqn:Mq; cbn [negb]; [|exact Q].
+  destruct WS as (l & P & ND & Mem & Sum & En & In1 & Out1).
+  match goal with |- context [negb (a_writing ?e)] => destruct (negb (a_writing e)) end; [exact Logic.I|].
+  destruct Q as [_ C].
+  match goal with |- Inv N (inc_obj (set_ent s1 f ?e)) => set (e' := e) end.
+  assert (St : e_state e' = LeLoaded) by (subst e'; destruct (a_swapsz (ents s1 f) =? 0); reflexivity).
+  assert (Wr : a_writing e' = false) by (subst e'; destruct (a_swapsz (ents s1 f) =? 0); reflexivity).
+  assert (Sz : e_size e' = e_size (ents s f)) by (subst e'; rewrite En; destruct (a_swapsz (ents s f) =? 0); reflexivity).
+  assert (Sa : a_start e' = a_start (ents s f)) by (subst e'; rewrite En; destruct (a_swapsz (ents s f) =? 0); reflexivity).
+  apply (Inv_step N s _ f (fun _ => False)); st_simp; auto.
+  - intros g Hg. rewrite upd_other by assumption. rewrite En. reflexivity.
+  - rewrite upd_same. unfold ent_ok. rewrite St. exact Wr.
+  - intros _. exists l. split.
+    + unfold good_chain. st_simp. rewrite upd_same. rewrite Sa, Sz. split; [|split; [exact ND|split]].
+      * eapply chain_of_frame; [|eapply path_chain; [exact P|lia]].
+        intros x Hx. rewrite In1 by assumption. reflexivity.
+      * intros x Hx. destruct (Mem x Hx) as (R&Fi&Ma&Si). unfold member_ok. rewrite In1 by assumption. cbn. auto.
+      * rewrite (sumsz_frame s _ l); [lia|]. intros x Hx. st_simp. rewrite In1 by assumption. reflexivity.
+    + intros g l2 x Hg Lg G2 X1 X2. destruct (Mem x X1) as (_&Fi&_).
+      destruct G2 as (_&_&M2&_). destruct (M2 x X2) as (_&_&Fi2&_). congruence.
+Qed.
+
+Lemma finalize_or_free_inv : forall N pos f s s',
+  Inv N s -> e_state (ents s f) <> LeLoaded -> finalize_or_free N pos f s = Ok s' -> Inv N s'.
+Proof.
+  intros N pos f s s' I NL H. unfold finalize_or_free in H.
+  pose proof (finalize_or_throw_inv N pos f s I) as F.
+  destruct (finalize_or_throw N pos f s) as [s1|s1| |]; try discriminate.
+  - inversion H; subst; exact F.
+  - eapply free_bad_entry_inv; [eapply Inv_quiet; eauto| |exact H].
+    destruct F as [E _]. rewrite E. exact NL.
+Qed.
